@@ -4,7 +4,7 @@ import os
 import random
 import sys
 
-from vf import dirs, env, harness
+from vf import cliparse, dirs, env, harness
 from vf import pelmodel as pm
 
 ID = "C11"
@@ -129,6 +129,18 @@ def run(spec, ctx):
         for argv in rng.sample(readonly, 12):
             full = argv if argv[0] == "-f" else ["-p", d.root] + argv
             observe(ctx, d, full, "readonly", None, i, extra_roots=[outdir])
+        # the same modes with options of LOWER precedence on the line (other modes incl. -d / -D, which are then not the
+        # chosen mode) and with --clean / --output-dir, which mean something to --file and --json only
+        for argv in rng.sample(readonly, 8):
+            if argv[0] == "-f":
+                continue
+            soup = cliparse.dominated_options(rng, argv[0], eid=eid, plid=e0.pel.plid if e0 else 7, excl=excl, outdir=outdir)
+            ctx.count("runs.readonly_with_dominated_options")
+            observe(ctx, d, ["-p", d.root] + argv + soup, "readonly", None, i, extra_roots=[outdir])
+        if e0:
+            soup = [x for x in cliparse.dominated_options(rng, "-f", eid=eid, excl=excl, allow_clean=False) if x not in ("-c", "--clean")]
+            ctx.count("runs.readonly_with_dominated_options")
+            observe(ctx, d, ["-p", d.root, "-f", e0.path] + soup, "readonly", None, i, extra_roots=[outdir])
         # --json (no --clean): creates only <name>.<eid>.json in the chosen directory
         for out in (None, outdir):
             argv = ["-p", d.root, "-j"] + rng.choice([[], ["-E"], ["-H", "-N"]]) + (["-o", out] if out else [])
